@@ -684,8 +684,8 @@ func cmdRun(args []string) int {
 			},
 			"known_findings_matched": len(knownHit),
 			"components": map[string]interface{}{
-				"real": []string{"github.com/parsyl/parquet (runtime, working tree)", "internal/rle", "internal/bitpack", "code generated at check time by the tree's cmd/parquetgen for shapes flat, nested, doc", "apache/thrift compact protocol", "golang/snappy", "compress/gzip"},
-				"stub": []string{"destination io.Writer (sim sink / sim disk)", "source io.ReadSeeker (sim source)", "github.com/valyala/bytebufferpool (simulator-owned pool; ByteBuffer logic copied from v1.0.0)"},
+				"real": []string{"github.com/parsyl/parquet (runtime, working tree)", "internal/rle", "internal/bitpack", "code generated at check time by the tree's cmd/parquetgen for every shape (flat, flatb, nested, nestedb, doc, rep3, person, kv, pair, opt4, wide, clash, bits and the re-ordered reader structs flatp, kvp, nestedp)", "apache/thrift compact protocol", "golang/snappy", "compress/gzip"},
+				"stub": []string{"destination io.Writer (sim sink / sim disk)", "source io.ReadSeeker (sim source)", "github.com/valyala/bytebufferpool (simulator-owned pool; ByteBuffer logic copied from v1.0.0)", "goroutine scheduling of caller tasks (baton scheduler, C13)", "the clock (C08 simulated-clock arm only: fake clock of a testing/synctest bubble)", "the OS process and its environment (C13 fresh-process arm, C11 sandbox children: real processes, started and configured by the simulator)"},
 			},
 			"workers": *workers,
 		},
